@@ -331,8 +331,9 @@ impl<'a> JsStr<'a> {
             (Some(b'0'), Some(b'b' | b'B')) => Some(2),
             (Some(b'0'), Some(b'o' | b'O')) => Some(8),
             (Some(b'0'), Some(b'x' | b'X')) => Some(16),
-            // Make sure that no further variants of "infinity" are parsed.
-            (Some(b'i' | b'I'), _) => {
+            // Make sure that no further variants of "infinity" are parsed: `fast_float2` also
+            // accepts "inf" and "infinity" in any case, with or without a sign.
+            (Some(b'i' | b'I'), _) | (Some(b'+' | b'-'), Some(b'i' | b'I')) => {
                 return f64::NAN;
             }
             _ => None,
@@ -341,7 +342,8 @@ impl<'a> JsStr<'a> {
         // Parse numbers that begin with `0b`, `0o` and `0x`.
         if let Some(base) = base {
             let string = &string[2..];
-            if string.is_empty() {
+            // `u32::from_str_radix` would accept a leading `+`, which the grammar does not.
+            if string.is_empty() || string.starts_with('+') {
                 return f64::NAN;
             }
 
@@ -350,16 +352,37 @@ impl<'a> JsStr<'a> {
                 return f64::from(value);
             }
 
-            // Slow path
-            let mut value: f64 = 0.0;
+            // Slow path: the bases are powers of two, so the value is `mantissa * 2^exponent` where
+            // `mantissa` holds the leading (up to 64) significant bits.  Bits that do not fit are
+            // folded into the lowest bit (round to odd), which makes the final conversion to `f64`
+            // round the exact value to nearest, ties to even.
+            let (shift, step): (u32, i32) = match base {
+                2 => (1, 1),
+                8 => (3, 3),
+                _ => (4, 4),
+            };
+            let mut mantissa: u64 = 0;
+            let mut exponent: i32 = 0;
+            let mut sticky = false;
             for c in s {
-                if let Some(digit) = char::from(c).to_digit(base) {
-                    value = value.mul_add(f64::from(base), f64::from(digit));
-                } else {
+                let Some(digit) = char::from(c).to_digit(base) else {
                     return f64::NAN;
+                };
+                if mantissa.leading_zeros() >= shift {
+                    mantissa = (mantissa << shift) | u64::from(digit);
+                } else {
+                    sticky |= digit != 0;
+                    exponent = exponent.saturating_add(step);
                 }
             }
-            return value;
+            if sticky {
+                mantissa |= 1;
+            }
+            // Rounds to nearest, ties to even; the multiplication by a power of two is exact
+            // (or overflows to infinity).
+            #[allow(clippy::cast_precision_loss)]
+            let value = mantissa as f64;
+            return value * 2f64.powi(exponent);
         }
 
         fast_float2::parse(string).unwrap_or(f64::NAN)
